@@ -17,6 +17,8 @@ import (
 
 type c12Case struct {
 	Text  string     `json:"text"`
+	// Langs: the targets requested on the command line (empty: all six)
+	Langs []string   `json:"langs,omitempty"`
 	Fault *dsl.Fault `json:"fault,omitempty"` // nil: well-formed, must be accepted
 	First int        `json:"first,omitempty"` // line span of the offending declaration
 	Last  int        `json:"last,omitempty"`
@@ -49,7 +51,11 @@ func diagsOf(out string) []diagLine {
 }
 
 func evalC12(k c12Case) []pbt.Violation {
-	trees, r, dir := compileCLI(k.Text, inproc.Langs, true)
+	langs := k.Langs
+	if len(langs) == 0 {
+		langs = inproc.Langs
+	}
+	trees, r, dir := compileCLI(k.Text, langs, true)
 	defer os.RemoveAll(dir)
 	out := string(r.Stdout) + "\n" + string(r.Stderr)
 	nfiles := 0
@@ -68,7 +74,7 @@ func evalC12(k c12Case) []pbt.Violation {
 			}
 			return []pbt.Violation{{Signature: "wellformed-rejected:" + msgClass(msg), Detail: fmt.Sprintf("a well-formed DSL is rejected (exit %d): %s", r.Exit, clip(out, 300))}}
 		}
-		for _, l := range inproc.Langs {
+		for _, l := range langs {
 			if len(trees[l]) == 0 {
 				return []pbt.Violation{{Signature: "wellformed-no-output:" + l, Detail: "accepted, but no file was written for " + l}}
 			}
@@ -149,7 +155,7 @@ func TestC12(t *testing.T) {
 		return evalC12(k)
 	})
 	c.Check(t, func(rt *rapid.T) {
-		p := dsl.GenProgram(rt, dsl.GenCfg{MaxPackets: 5, Docs: true, Avoid: avoid, Shapes: true, AnyOrder: true})
+		p := dsl.GenProgram(rt, dsl.GenCfg{MaxPackets: 5, Docs: true, Avoid: avoid, Shapes: true, AnyOrder: true, KeywordNames: true})
 		// the same inline object declared in two packets is legal and keeps per-name state busy
 		if rapid.IntRange(0, 3).Draw(rt, "share_inline") == 0 {
 			dsl.ShareInline(rt, p)
@@ -164,6 +170,27 @@ func TestC12(t *testing.T) {
 			c.NonTrivial(pbt.Hash(text), func() any { return map[string]any{"accepted": clip(text, 500)} })
 		}
 		c.Report(rt, k, evalC12(k))
+		// acceptance must not depend on which targets are requested; the root packet is optional
+		// for the targets that do not need one (Go, Java, Rust), as in the repository's own samples
+		switch rapid.IntRange(0, 5).Draw(rt, "subset_variant") {
+		case 0:
+			sub := rapid.SliceOfNDistinct(rapid.SampledFrom(inproc.Langs), 1, 5, rapid.ID[string]).Draw(rt, "subset")
+			sk := c12Case{Text: text, Langs: sub}
+			c.Eval()
+			c.Class("wellformed:target-subset")
+			c.Report(rt, sk, evalC12(sk))
+		case 1:
+			if !dsl.Has(feats, "len") {
+				q := p.Clone()
+				q.RootPacket().Root = false
+				qtext, _ := dsl.Render(q, dsl.Plain{}, dsl.RandLayout{T: rt, Label: "rootless_lay"}, dsl.RenderOpts{NoPadRewrites: true})
+				sub := rapid.SliceOfNDistinct(rapid.SampledFrom([]string{"rust", "go", "java"}), 1, 3, rapid.ID[string]).Draw(rt, "rootless_subset")
+				sk := c12Case{Text: qtext, Langs: sub}
+				c.Eval()
+				c.Class("wellformed:no-root-packet")
+				c.Report(rt, sk, evalC12(sk))
+			}
+		}
 		ndecl := len(p.Packets)
 		for _, pk := range p.Packets {
 			ndecl += len(pk.Fields)
